@@ -2,7 +2,8 @@
    generated module, for the five translation sites and both modes.
 
    anchors (paths below /repo/src):
-     analysis/type_resolver.rs    parse_type_structure          -> TypeParse.parse (imported)
+     analysis/type_resolver.rs    parse_type_structure (with find_top_level_comma / split_top_level,
+                                  repair C05-2-3-top-level-commas)  -> C05Parse.parse2 (imported)
      generators/base/type_visitor.rs  default visit_* + visit_custom (type_mappings lookup)  -> render_m
      generators/zod/type_visitor.rs   visit_* / visit_custom / visit_type_for_interface     -> zvisit, render_m
      generators/zod/schema_builder.rs render_type with validator = None                     -> zbuild
@@ -11,7 +12,7 @@
    No proofs in this file. *)
 From Coq Require Import String Ascii.
 From Coq Require Import List Arith Bool.
-Require Import TT.Model.Str TT.Model.TypeParse.
+Require Import TT.Model.Str TT.Model.TypeParse TT.Model.C05Parse.
 Import ListNotations.
 Local Open Scope char_scope.
 Local Open Scope list_scope.
@@ -104,7 +105,7 @@ Fixpoint atp (fuel : nat) (s : str) : str :=
   match fuel with 0 => s | S f =>
   if one_of s ["void"; "string"; "number"; "boolean"; "any"; "unknown"; "null"; "undefined"] then s else
   match strip_suffix (L "[]") s with
-  | Some base => if one_of base ["string"; "number"; "boolean"; "void"] then s else (L "types." ++ base ++ L "[]")%list
+  | Some base => (atp f base ++ L "[]")%list        (* repair C05-4-prefix-composite: recurse on the element type *)
   | None =>
     if starts (L "Record<") s || starts (L "Map<") s then s else
     match strip_suffix (L " | null") s with
@@ -143,7 +144,7 @@ Definition emit_ts (s : site) (md : mode) (m : mapping) (opt : bool) (ts : tstru
 
 (* from the string type_to_string printed *)
 Definition emit_str (s : site) (md : mode) (m : mapping) (opt : bool) (ty : str) : option str :=
-  option_map (emit_ts s md m opt) (parse_type_structure ty).
+  option_map (emit_ts s md m opt) (parse_type_structure2 ty).
 
 (* from the Rust type: all three type_to_string variants print tts on this syntax *)
 Definition emit_type (s : site) (md : mode) (m : mapping) (t : rty) : option str :=
